@@ -518,11 +518,13 @@ impl File {
         };
         if f.name.as_str() == ALWAYS {
             if let Some(env_runid) = runid {
-                f.changed_runid = Some(
-                    f.changed_runid
-                        .map(|changed_runid| cmp::max(env_runid, changed_runid))
-                        .unwrap_or(env_runid),
-                );
+                // "Changed in the current run", whatever run that is.  (Not the maximum of
+                // this and the recorded value: the recorded value is the run of the last
+                // redo-always executed by anybody.  When an overlapping run that started
+                // later executes one, taking the maximum made every always-target that the
+                // earlier run had already built look out of date again -- it was then
+                // built a second time in the same run.)
+                f.changed_runid = Some(env_runid);
             }
         }
         Ok(f)
